@@ -239,7 +239,7 @@ func runC05(sc *Scenario, keepLog bool) *RunReport {
 	}
 	// (wall-clock watchdog against a task that never comes back: generous, whole-specification validations of deeply
 	// nested documents under the race detector take tens of seconds on a loaded machine)
-	cr := runConcurrentShared(sc, sim, env.LL, shared, 900*time.Second)
+	cr := runConcurrentShared(sc, sim, env.LL, shared, 1800*time.Second)
 	if cr.Run.Stuck {
 		rep.HarnessErr = "watchdog: a task did not come back to the controller"
 		return rep
